@@ -1,6 +1,10 @@
 package core
 
 import (
+	"fmt"
+	"go/constant"
+	"go/token"
+
 	"golang.org/x/tools/go/ssa"
 )
 
@@ -134,7 +138,11 @@ func escapeFromNonNil(t NilTest, fn *ssa.Function, ev ssa.Value) ssa.Instruction
 				return ret
 			}
 			if ClassifyReturn(ret) != RetError && !nonNilViaEdge(ret.Results[len(ret.Results)-1], ret, t, ev, reach) {
-				return ret
+				// a candidate: confirm it path by path (single-exit forms merge the two edges before returning)
+				if esc, exhausted := pathEscape(t, fn, ev); esc != nil || exhausted {
+					return ret
+				}
+				return nil
 			}
 		}
 	}
@@ -225,4 +233,239 @@ func nonNilViaEdge(e ssa.Value, ret *ssa.Return, t NilTest, ev ssa.Value, reach 
 		}
 	}
 	return counted > 0
+}
+
+// pathEscape is the path-sensitive refinement of escapeFromNonNil: it walks every path that starts on the non-nil edge
+// of test t (see WalkReturns) and returns a return instruction some such path reaches with an error operand that is
+// not provably non-nil, or nil if there is none.
+func pathEscape(t NilTest, fn *ssa.Function, ev ssa.Value) (esc ssa.Instruction, exhausted bool) {
+	if !ReturnsError(fn.Signature) {
+		for b := range ReachableFrom(t.NonNil, nil) {
+			if ret, ok := b.Instrs[len(b.Instrs)-1].(*ssa.Return); ok {
+				return ret, false
+			}
+		}
+		return nil, false
+	}
+	reach := ReachableFrom(t.NonNil, nil)
+	exhausted = WalkReturns(t.If, t.NonNil == t.If.Block().Succs[0], []ssa.Value{ev}, func(ret *ssa.Return, nilness int, resolved ssa.Value) bool {
+		if nilness == 1 || ClassifyReturn(ret) == RetError {
+			return true
+		}
+		if !IsNilConst(resolved) && NonNilAtFrom(resolved, ret, reach) {
+			return true
+		}
+		esc = ret
+		return false
+	})
+	return esc, exhausted
+}
+
+// WalkReturns walks every path that leaves the If `from` on its true (or false) edge, resolving phis by the way each
+// path came in and pruning branches whose nil tests are already decided on that path (single-exit forms:
+// `switch { case err != nil: ... }; return v, err`).  For each return reached it calls visit with the nilness of the
+// function's last result on that path (+1 provably non-nil, -1 nil, 0 unknown) and the value it resolved to; visit
+// returns false to stop.  Taking a back edge forgets everything learnt (values are redefined per iteration).  The
+// values in nonNil are known to be non-nil from the start.  It reports whether the step budget was exhausted.
+func WalkReturns(from *ssa.If, onTrue bool, nonNil []ssa.Value, visit func(ret *ssa.Return, nilness int, resolved ssa.Value) bool) (exhausted bool) {
+	fn := from.Parent()
+	hasErr := ReturnsError(fn.Signature)
+	type state struct {
+		env    map[*ssa.Phi]ssa.Value
+		nonNil map[ssa.Value]bool
+		isNil  map[ssa.Value]bool
+	}
+	clone := func(s *state) *state {
+		n := &state{env: map[*ssa.Phi]ssa.Value{}, nonNil: map[ssa.Value]bool{}, isNil: map[ssa.Value]bool{}}
+		for k, v := range s.env {
+			n.env[k] = v
+		}
+		for k := range s.nonNil {
+			n.nonNil[k] = true
+		}
+		for k := range s.isNil {
+			n.isNil[k] = true
+		}
+		return n
+	}
+	resolve := func(s *state, v ssa.Value) ssa.Value {
+		for i := 0; i < 16; i++ {
+			phi, ok := v.(*ssa.Phi)
+			if !ok {
+				return v
+			}
+			r, has := s.env[phi]
+			if !has {
+				return v
+			}
+			v = r
+		}
+		return v
+	}
+	// nilness of a resolved value on this path: +1 non-nil, -1 nil, 0 unknown
+	var nilness func(s *state, v ssa.Value, d int) int
+	nilness = func(s *state, v ssa.Value, d int) int {
+		v = resolve(s, v)
+		switch {
+		case IsNilConst(v):
+			return -1
+		case s.nonNil[v]:
+			return 1
+		case s.isNil[v]:
+			return -1
+		case IsErrCtor(v):
+			return 1
+		}
+		if _, ok := v.(*ssa.MakeInterface); ok {
+			return 1
+		}
+		if in, ok := IsErrWrap(v); ok && d < 4 {
+			return nilness(s, in, d+1) // pkg/errors wrappers return nil for a nil cause
+		}
+		return 0
+	}
+	// cond: +1 true, -1 false, 0 unknown; learn reports what the two edges teach
+	var cond func(s *state, v ssa.Value, d int) int
+	cond = func(s *state, v ssa.Value, d int) int {
+		v = resolve(s, v)
+		if d > 6 {
+			return 0
+		}
+		switch x := v.(type) {
+		case *ssa.Const:
+			if x.Value != nil && x.Value.Kind() == constant.Bool {
+				if constant.BoolVal(x.Value) {
+					return 1
+				}
+				return -1
+			}
+		case *ssa.UnOp:
+			if x.Op == token.NOT {
+				return -cond(s, x.X, d+1)
+			}
+		case *ssa.BinOp:
+			if (x.Op == token.EQL || x.Op == token.NEQ) && (IsNilConst(x.X) || IsNilConst(x.Y)) {
+				o := x.X
+				if IsNilConst(o) {
+					o = x.Y
+				}
+				n := nilness(s, o, 0)
+				if x.Op == token.EQL {
+					return -n
+				}
+				return n
+			}
+		}
+		return 0
+	}
+	learn := func(s *state, v ssa.Value, truth bool) {
+		for i := 0; i < 4; i++ {
+			v = resolve(s, v)
+			if u, ok := v.(*ssa.UnOp); ok && u.Op == token.NOT {
+				v, truth = u.X, !truth
+				continue
+			}
+			break
+		}
+		if x, ok := v.(*ssa.BinOp); ok && (x.Op == token.EQL || x.Op == token.NEQ) && (IsNilConst(x.X) || IsNilConst(x.Y)) {
+			o := x.X
+			if IsNilConst(o) {
+				o = x.Y
+			}
+			o = resolve(s, o)
+			if (x.Op == token.NEQ) == truth {
+				s.nonNil[o] = true
+			} else {
+				s.isNil[o] = true
+			}
+		}
+	}
+	steps := 0
+	seen := map[string]bool{}
+	var walk func(b, pred *ssa.BasicBlock, s *state, onPath map[*ssa.BasicBlock]bool) ssa.Instruction
+	walk = func(b, pred *ssa.BasicBlock, s *state, onPath map[*ssa.BasicBlock]bool) ssa.Instruction {
+		steps++
+		if steps > 20000 {
+			exhausted = true
+			return nil
+		}
+		if onPath[b] {
+			// next iteration: nothing learnt so far is valid any more
+			s = &state{env: map[*ssa.Phi]ssa.Value{}, nonNil: map[ssa.Value]bool{}, isNil: map[ssa.Value]bool{}}
+			key := fmt.Sprintf("loop:%d<-%d", b.Index, pred.Index)
+			if seen[key] {
+				return nil
+			}
+			seen[key] = true
+			onPath = map[*ssa.BasicBlock]bool{}
+		} else {
+			// phis are evaluated simultaneously on the way in
+			upd := map[*ssa.Phi]ssa.Value{}
+			for _, in := range b.Instrs {
+				phi, ok := in.(*ssa.Phi)
+				if !ok {
+					break
+				}
+				for i, p := range b.Preds {
+					if p == pred {
+						upd[phi] = resolve(s, phi.Edges[i])
+					}
+				}
+			}
+			for k, v := range upd {
+				s.env[k] = v
+			}
+		}
+		onPath[b] = true
+		defer delete(onPath, b)
+		last := b.Instrs[len(b.Instrs)-1]
+		switch x := last.(type) {
+		case *ssa.Return:
+			if !hasErr || len(x.Results) == 0 {
+				if !visit(x, 0, nil) {
+					return x
+				}
+				return nil
+			}
+			e := x.Results[len(x.Results)-1]
+			if !visit(x, nilness(s, e, 0), resolve(s, e)) {
+				return x
+			}
+			return nil
+		case *ssa.If:
+			c := cond(s, x.Cond, 0)
+			for i, succ := range b.Succs {
+				if c == 1 && i == 1 || c == -1 && i == 0 {
+					continue
+				}
+				s2 := clone(s)
+				if c == 0 {
+					learn(s2, x.Cond, i == 0)
+				}
+				if r := walk(succ, b, s2, onPath); r != nil {
+					return r
+				}
+			}
+			return nil
+		default:
+			for _, succ := range b.Succs {
+				if r := walk(succ, b, clone(s), onPath); r != nil {
+					return r
+				}
+			}
+		}
+		return nil
+	}
+	s0 := &state{env: map[*ssa.Phi]ssa.Value{}, nonNil: map[ssa.Value]bool{}, isNil: map[ssa.Value]bool{}}
+	for _, v := range nonNil {
+		s0.nonNil[v] = true
+	}
+	// whatever the condition tests is decided on this edge
+	learn(s0, from.Cond, onTrue)
+	start := from.Block().Succs[1]
+	if onTrue {
+		start = from.Block().Succs[0]
+	}
+	walk(start, from.Block(), s0, map[*ssa.BasicBlock]bool{})
+	return exhausted
 }
